@@ -6,6 +6,10 @@ import ltv
 from gen import c19 as G
 
 
+# Poll::do_poll(std::chrono::microseconds): wrapped at link time so the harness sees the timeout Thread::event_loop passes
+DO_POLL_SYM = "_ZN7torrent6system4Poll7do_pollENSt6chrono8durationIlSt5ratioILl1ELl1000000EEEE"
+
+
 def run(rep, tier, seed, replay):
     coq = ltv.coq_build("C19")
     rep.cov.update(obligations=coq["obligations"], discharged=coq["discharged"], checker_cmd=coq["checker_cmd"],
@@ -22,7 +26,7 @@ def run(rep, tier, seed, replay):
                        "process_events() and Poll::do_poll(timeout) (max(next_timeout(),0); m_scheduler->next_timeout) are replicated in the harness, "
                        "event_loop itself and Poll::do_poll are not run"]))
     model = ltv.build_model("C19")
-    impl = ltv.build_harness("c19", ["c19.cc"])
+    impl = ltv.build_harness("c19", ["c19.cc"], libs=["-Wl,--wrap=" + DO_POLL_SYM])
     if replay:
         cases = [json.load(open(replay))["case"]]
         stats = {"replay": 1}
